@@ -121,3 +121,679 @@ Lemma reachable_step k g l i g' :
 Proof.
   intros [cfg Hst] Hs. exists cfg. eapply steps_step; eauto.
 Qed.
+
+(* ---------- per-process invariant (repaired tree) ---------- *)
+
+Definition proc_ok (p : proc) : Prop :=
+  (p_locked p = true -> p_path_ok p = true) /\
+  (p_refused p = true -> p_locked p = false /\ (p_pc p = Failing \/ p_pc p = Exited 1)) /\
+  (locks (p_desc p) = false -> relocks (p_desc p) = false ->
+     p_locked p = false /\
+     match p_pc p with Resolved | Acquired | Relock => False | _ => True end) /\
+  match p_pc p with
+  | Start | Resolved => p_locked p = false
+  | Acquired => p_locked p = true
+  | Body => locks (p_desc p) = true -> p_locked p = true
+  | Relock | Done | Failing => True
+  | Exited c => p_locked p = false /\ c <= 1
+  end.
+
+(* what one step of one process does to its own flag, by effect on the file *)
+Definition flag_effect (e : effect) (lf : bool) (p p' : proc) : Prop :=
+  match e with
+  | Take => lf = false /\ p_locked p = false /\ p_locked p' = true
+  | Drop => p_locked p = true /\ p_locked p' = false
+  | Keep => p_locked p' = p_locked p
+  end.
+
+Lemma local_step_ok l lf p p' e :
+  proc_ok p -> local_step ReleaseSamePath l lf p = Some (p', e) ->
+  proc_ok p' /\ p_desc p' = p_desc p /\ flag_effect e lf p p'.
+Proof.
+  destruct p as [c lk po cw rf rl [dl dc dr df]].
+  unfold proc_ok, local_step, flag_effect. simpl.
+  intros (Hpath & Href & Hnl & Hpc) Hs.
+  destruct l, c; simpl in Hs; try discriminate.
+  all: repeat match type of Hs with
+       | context [if ?b then _ else _] => destruct b eqn:?; simpl in Hs
+       end; try discriminate.
+  all: inversion Hs; subst; clear Hs; simpl.
+  all: repeat split; intros; subst.
+  all: repeat match goal with
+       | H : ?a = ?a -> _ |- _ => specialize (H eq_refl)
+       | H : ?P -> _, H' : ?P |- _ => specialize (H H')
+       | H : _ /\ _ |- _ => destruct H
+       end.
+  all: repeat match goal with
+       | H : _ \/ _ |- _ => destruct H
+       end.
+  all: subst; try discriminate; try tauto; try congruence; try lia; auto.
+  all: destruct lk, rf; simpl in *; try discriminate; try tauto; try congruence; auto.
+Qed.
+
+(* ---------- global invariant (repaired tree) ---------- *)
+
+Definition Inv (g : global) : Prop :=
+  count_locked (procs g) = b2n (lockfile g) /\
+  Forall proc_ok (procs g) /\
+  match holder g with
+  | Some h => lockfile g = true /\ holds g h
+  | None => lockfile g = false
+  end.
+
+Lemma inv_init cfg : Inv (init cfg).
+Proof.
+  unfold Inv, init. simpl. repeat split.
+  - induction cfg as [|c r IH]; simpl; auto.
+  - induction cfg as [|c r IH]; simpl; constructor; auto.
+    unfold proc_ok, start_proc. simpl. repeat split; auto; intros; discriminate.
+Qed.
+
+Lemma inv_step l g i g' :
+  Inv g -> step_proc ReleaseSamePath l g i = Some g' -> Inv g'.
+Proof.
+  intros (Hcnt & Hall & Hh) Hs.
+  destruct (step_proc_inv _ _ _ _ _ Hs) as (p & p' & e & Hn & Hl & Hlf & Hho & Hpr).
+  pose proof (Forall_nth_error _ _ _ _ _ Hall Hn) as Hok.
+  destruct (local_step_ok _ _ _ _ _ Hok Hl) as (Hok' & _ & Hfe).
+  pose proof (count_upd _ _ _ p' Hn) as Hcu.
+  pose proof (nth_error_upd_eq _ _ _ p' _ Hn) as Hni.
+  unfold Inv. rewrite Hpr, Hlf, Hho.
+  split; [|split].
+  - destruct e; simpl in *.
+    + rewrite Hfe in Hcu. lia.
+    + destruct Hfe as (Hlf0 & Hp & Hp'). rewrite Hp, Hp' in Hcu. rewrite Hlf0 in Hcnt.
+      simpl in *. lia.
+    + destruct Hfe as (Hp & Hp'). rewrite Hp, Hp' in Hcu.
+      destruct (lockfile g); simpl in *; lia.
+  - apply Forall_upd; auto.
+  - destruct e; simpl in *.
+    + destruct (holder g) as [h|]; auto.
+      destruct Hh as (Hlt & q & Hq & Hql). split; auto.
+      unfold holds. rewrite Hpr.
+      destruct (Nat.eq_dec h i) as [->|Hne].
+      * exists p'. split; auto. rewrite Hfe. congruence.
+      * exists q. split; auto. rewrite nth_error_upd_neq; auto.
+    + split; auto. exists p'. rewrite Hpr. split; auto. apply Hfe.
+    + reflexivity.
+Qed.
+
+Lemma inv_steps g g' : steps ReleaseSamePath g g' -> Inv g -> Inv g'.
+Proof.
+  induction 1 as [|g1 g2 g3 l i H12 IH H23]; intros Hi; auto.
+  apply (inv_step l g2 i g3 (IH Hi) H23).
+Qed.
+
+Lemma inv_reachable g : reachable ReleaseSamePath g -> Inv g.
+Proof.
+  intros [cfg Hst]. eapply inv_steps; eauto. apply inv_init.
+Qed.
+
+(* ---------- consequences of the invariant ---------- *)
+
+Lemma inv_holds_unique g i j : Inv g -> holds g i -> holds g j -> i = j.
+Proof.
+  intros (Hcnt & _ & _) (p & Hp & Hpl) (q & Hq & Hql).
+  eapply count_unique; eauto. rewrite Hcnt. destruct (lockfile g); simpl; lia.
+Qed.
+
+Lemma inv_holds_lockfile g i : Inv g -> holds g i -> lockfile g = true.
+Proof.
+  intros (Hcnt & _ & _) (p & Hp & Hpl).
+  pose proof (count_ge _ _ _ Hp Hpl) as Hge. rewrite Hcnt in Hge.
+  destruct (lockfile g); simpl in *; auto; lia.
+Qed.
+
+Lemma inv_lockfile_holder g :
+  Inv g -> lockfile g = true -> exists h, holder g = Some h /\ holds g h.
+Proof.
+  intros (_ & _ & Hh) Hlf. destruct (holder g) as [h|].
+  - exists h. tauto.
+  - congruence.
+Qed.
+
+Lemma inv_holder_iff g i : Inv g -> (holder g = Some i <-> holds g i).
+Proof.
+  intros Hinv. split.
+  - destruct Hinv as (_ & _ & Hh). intros Heq. rewrite Heq in Hh. tauto.
+  - intros Hi. pose proof (inv_holds_lockfile _ _ Hinv Hi) as Hlf.
+    destruct (inv_lockfile_holder _ Hinv Hlf) as (h & Hh & Hhh).
+    rewrite Hh. f_equal. eapply inv_holds_unique; eauto.
+Qed.
+
+(* a process past the lock of a locking subcommand *)
+Definition past_lock (p : proc) : Prop :=
+  p_pc p = Acquired \/ (p_pc p = Body /\ locks (p_desc p) = true).
+
+Lemma past_lock_locked p : proc_ok p -> past_lock p -> p_locked p = true.
+Proof.
+  intros (_ & _ & _ & Hpc) [Ha|[Hb Hl]].
+  - rewrite Ha in Hpc. auto.
+  - rewrite Hb in Hpc. auto.
+Qed.
+
+(* C12, first sentence: at most one at a time gets past the project lock *)
+Theorem C12_mutex :
+  forall g, reachable ReleaseSamePath g ->
+    (lockfile g = true <-> exists i, holds g i /\ forall j, holds g j -> j = i) /\
+    (forall i j, holds g i -> holds g j -> i = j) /\
+    (forall i, holder g = Some i <-> holds g i) /\
+    (forall i p, nth_error (procs g) i = Some p ->
+       (p_pc p = Acquired -> p_locked p = true) /\
+       (p_pc p = Body -> locks (p_desc p) = true -> p_locked p = true)) /\
+    (forall i j p q, nth_error (procs g) i = Some p -> nth_error (procs g) j = Some q ->
+       past_lock p -> past_lock q -> i = j).
+Proof.
+  intros g Hr. pose proof (inv_reachable _ Hr) as Hinv.
+  assert (Hall : Forall proc_ok (procs g)) by apply Hinv.
+  split; [|split; [|split; [|split]]].
+  - split.
+    + intros Hlf. destruct (inv_lockfile_holder _ Hinv Hlf) as (h & _ & Hh).
+      exists h. split; auto. intros j Hj. eapply inv_holds_unique; eauto.
+    + intros (i & Hi & _). eapply inv_holds_lockfile; eauto.
+  - intros i j. apply inv_holds_unique; auto.
+  - intros i. apply inv_holder_iff; auto.
+  - intros i p Hn. pose proof (Forall_nth_error _ _ _ _ _ Hall Hn) as Hok. split.
+    + intros Hpc. apply past_lock_locked; auto. left; auto.
+    + intros Hpc Hl. apply past_lock_locked; auto. right; auto.
+  - intros i j p q Hp Hq Hpp Hpq.
+    apply (inv_holds_unique g i j Hinv).
+    + exists p. split; auto. apply past_lock_locked; auto. eapply Forall_nth_error; eauto.
+    + exists q. split; auto. apply past_lock_locked; auto. eapply Forall_nth_error; eauto.
+Qed.
+Print Assumptions C12_mutex.
+
+(* ---------- refused processes ---------- *)
+
+Lemma refusal_local k lf p p' e :
+  local_step k LAcquireRefused lf p = Some (p', e) ->
+  lf = true /\ e = Keep /\ p_pc p = Resolved /\ p' = set_pc (set_refused p true) Failing.
+Proof.
+  unfold local_step. destruct (p_pc p); try discriminate.
+  destruct lf; try discriminate. intros Hs. inversion Hs. auto.
+Qed.
+
+Lemma refused_local k l lf p p' e :
+  p_refused p = true -> p_locked p = false -> (p_pc p = Failing \/ p_pc p = Exited 1) ->
+  local_step k l lf p = Some (p', e) ->
+  l = LExit /\ e = Keep /\ p_pc p = Failing /\ p' = set_pc p (Exited 1).
+Proof.
+  intros Hrf Hlk Hpc. unfold local_step. rewrite Hrf, Hlk.
+  destruct Hpc as [Hpc|Hpc]; rewrite Hpc; destruct l; simpl; try discriminate.
+  intros Hs. inversion Hs. auto.
+Qed.
+
+(* C12: the others exit non-zero without changing anything and without removing the holder's
+   lock.  First part: the refusal step itself.  Second part: everything a refused process
+   does afterwards (every later state is again reachable, so the step-wise statement covers
+   all of its future). *)
+Theorem C12_refused_clean :
+  forall g i p, reachable ReleaseSamePath g -> nth_error (procs g) i = Some p ->
+    (forall g', step_proc ReleaseSamePath LAcquireRefused g i = Some g' ->
+       lockfile g = true /\ lockfile g' = true /\ holder g' = holder g /\
+       (forall j, j <> i -> nth_error (procs g') j = nth_error (procs g) j) /\
+       (exists h, holder g = Some h /\ h <> i /\ holds g h /\ holds g' h) /\
+       exists p', nth_error (procs g') i = Some p' /\
+         p_refused p' = true /\ p_locked p' = false /\ p_pc p' = Failing) /\
+    (p_refused p = true ->
+       p_locked p = false /\ ~ holds g i /\ holder g <> Some i /\
+       (p_pc p = Failing \/ p_pc p = Exited 1) /\
+       (forall c, p_pc p = Exited c -> c <> 0) /\
+       (p_pc p = Failing -> exists g', step_proc ReleaseSamePath LExit g i = Some g') /\
+       (forall l g', step_proc ReleaseSamePath l g i = Some g' ->
+          l = LExit /\ lockfile g' = lockfile g /\ holder g' = holder g /\
+          (forall j, j <> i -> nth_error (procs g') j = nth_error (procs g) j) /\
+          exists p', nth_error (procs g') i = Some p' /\
+            p_refused p' = true /\ p_locked p' = false /\ p_pc p' = Exited 1)).
+Proof.
+  intros g i p Hr Hn. pose proof (inv_reachable _ Hr) as Hinv.
+  assert (Hall : Forall proc_ok (procs g)) by apply Hinv.
+  pose proof (Forall_nth_error _ _ _ _ _ Hall Hn) as Hok.
+  split.
+  - intros g' Hs.
+    destruct (step_proc_inv _ _ _ _ _ Hs) as (p0 & p' & e & Hn0 & Hl & Hlf & Hho & Hpr).
+    rewrite Hn in Hn0. inversion Hn0; subst p0. clear Hn0.
+    destruct (refusal_local _ _ _ _ _ Hl) as (Hlft & He & Hpc & Hp'). subst e. simpl in *.
+    assert (Hlk : p_locked p = false).
+    { destruct Hok as (_ & _ & _ & Hm). rewrite Hpc in Hm. exact Hm. }
+    destruct (inv_lockfile_holder _ Hinv Hlft) as (h & Hh & Hhh).
+    assert (Hne : h <> i).
+    { intros ->. destruct Hhh as (q & Hq & Hql). congruence. }
+    repeat split; auto; try congruence.
+    + intros j Hj. eapply step_others; eauto.
+    + exists h. repeat split; auto.
+      destruct Hhh as (q & Hq & Hql). exists q. split; auto.
+      rewrite (step_others _ _ _ _ _ h Hs Hne). auto.
+    + exists p'. rewrite Hpr. split.
+      * eapply nth_error_upd_eq; eauto.
+      * subst p'. simpl. auto.
+  - intros Hrf. destruct Hok as (_ & Href & _ & Hm).
+    destruct (Href Hrf) as (Hlk & Hpc).
+    assert (Hnh : ~ holds g i).
+    { intros (q & Hq & Hql). congruence. }
+    split; [exact Hlk|]. split; [exact Hnh|].
+    split.
+    { intros Heq. apply Hnh. apply (inv_holder_iff _ _ Hinv). exact Heq. }
+    split; [exact Hpc|].
+    split.
+    { intros c Hc. destruct Hpc as [Hpc|Hpc]; rewrite Hpc in Hc; inversion Hc; lia. }
+    split.
+    { intros Hf. unfold step_proc. rewrite Hn. unfold local_step. rewrite Hf, Hrf. simpl.
+      eexists. reflexivity. }
+    intros l g' Hs.
+    destruct (step_proc_inv _ _ _ _ _ Hs) as (p0 & p' & e & Hn0 & Hl & Hlf & Hho & Hpr).
+    rewrite Hn in Hn0. inversion Hn0; subst p0. clear Hn0.
+    destruct (refused_local _ _ _ _ _ _ Hrf Hlk Hpc Hl) as (Hlab & He & _ & Hp').
+    subst l e p'. simpl in *.
+    split; [reflexivity|]. split; [exact Hlf|]. split; [exact Hho|].
+    split.
+    { intros j Hj. eapply step_others; eauto. }
+    exists (set_pc p (Exited 1)). rewrite Hpr. split.
+    + eapply nth_error_upd_eq; eauto.
+    + simpl. auto.
+Qed.
+Print Assumptions C12_refused_clean.
+
+(* the same, along any number of consecutive steps of the refused process *)
+Inductive steps_of (k : release_kind) (i : nat) : global -> global -> Prop :=
+| steps_of_refl g : steps_of k i g g
+| steps_of_step g1 g2 g3 l :
+    steps_of k i g1 g2 -> step_proc k l g2 i = Some g3 -> steps_of k i g1 g3.
+
+Theorem C12_refused_clean_trace :
+  forall g g' i p, reachable ReleaseSamePath g -> nth_error (procs g) i = Some p ->
+    p_refused p = true -> steps_of ReleaseSamePath i g g' ->
+    lockfile g' = lockfile g /\ holder g' = holder g /\
+    (forall j, j <> i -> nth_error (procs g') j = nth_error (procs g) j) /\
+    exists p', nth_error (procs g') i = Some p' /\ p_refused p' = true /\
+      p_locked p' = false /\ (p_pc p' = Failing \/ p_pc p' = Exited 1).
+Proof.
+  intros g g' i p Hr Hn Hrf Hst.
+  assert (Hgoal : reachable ReleaseSamePath g' /\
+    lockfile g' = lockfile g /\ holder g' = holder g /\
+    (forall j, j <> i -> nth_error (procs g') j = nth_error (procs g) j) /\
+    exists p', nth_error (procs g') i = Some p' /\ p_refused p' = true /\
+      p_locked p' = false /\ (p_pc p' = Failing \/ p_pc p' = Exited 1)).
+  { induction Hst as [g|g1 g2 g3 l H12 IH H23].
+    - split; [exact Hr|]. split; [reflexivity|]. split; [reflexivity|].
+      split; [intros j Hj; reflexivity|].
+      exists p. destruct (C12_refused_clean g i p Hr Hn) as (_ & Hafter).
+      destruct (Hafter Hrf) as (Hlk & _ & _ & Hpc & _). auto.
+    - destruct (IH Hr Hn) as (Hr2 & Hlf & Hho & Hoth & p2 & Hn2 & Hrf2 & Hlk2 & Hpc2).
+      destruct (C12_refused_clean g2 i p2 Hr2 Hn2) as (_ & Hafter).
+      destruct (Hafter Hrf2) as (_ & _ & _ & _ & _ & _ & Hstep).
+      destruct (Hstep l g3 H23) as (_ & Hlf3 & Hho3 & Hoth3 & p3 & Hn3 & Hrf3 & Hlk3 & Hpc3).
+      split; [eapply reachable_step; eauto|].
+      split; [congruence|]. split; [congruence|].
+      split.
+      + intros j Hj. rewrite Hoth3; auto.
+      + exists p3. auto. }
+  tauto.
+Qed.
+Print Assumptions C12_refused_clean_trace.
+
+(* ---------- release ---------- *)
+
+(* C12, second sentence: every command that exits on its own leaves the project unlocked.
+   The configuration (subcommand descriptor and starting directory of every process) and the
+   interleaving, hence the outcome class of every process, are arbitrary. *)
+Theorem C12_released :
+  forall cfg g, steps ReleaseSamePath (init cfg) g ->
+    (forall i p, nth_error (procs g) i = Some p -> is_exited p = true ->
+       p_locked p = false /\ ~ holds g i /\ holder g <> Some i /\
+       exists c, p_pc p = Exited c /\ c <= 1) /\
+    ((forall i p, nth_error (procs g) i = Some p -> is_exited p = true) ->
+       lockfile g = false /\ holder g = None).
+Proof.
+  intros cfg g Hst.
+  assert (Hr : reachable ReleaseSamePath g) by (exists cfg; exact Hst).
+  pose proof (inv_reachable _ Hr) as Hinv.
+  assert (Hall : Forall proc_ok (procs g)) by apply Hinv.
+  assert (Hex : forall i p, nth_error (procs g) i = Some p -> is_exited p = true ->
+            p_locked p = false /\ exists c, p_pc p = Exited c /\ c <= 1).
+  { intros i p Hn He. pose proof (Forall_nth_error _ _ _ _ _ Hall Hn) as Hok.
+    destruct Hok as (_ & _ & _ & Hm). unfold is_exited in He.
+    destruct (p_pc p) as [| | | | | | |c]; try discriminate.
+    destruct Hm as [Hlk Hc]. split; auto. exists c. auto. }
+  split.
+  - intros i p Hn He. destruct (Hex i p Hn He) as (Hlk & Hc).
+    assert (Hnh : ~ holds g i).
+    { intros (q & Hq & Hql). congruence. }
+    split; [exact Hlk|]. split; [exact Hnh|]. split; [|exact Hc].
+    intros Heq. apply Hnh. apply (inv_holder_iff _ _ Hinv). exact Heq.
+  - intros Hallex.
+    assert (Hz : count_locked (procs g) = 0).
+    { apply count_zero. intros i p Hn. apply (Hex i p Hn). apply (Hallex i p Hn). }
+    destruct Hinv as (Hcnt & _ & Hh). rewrite Hz in Hcnt.
+    assert (Hlf : lockfile g = false).
+    { destruct (lockfile g); simpl in Hcnt; auto; discriminate. }
+    split; [exact Hlf|].
+    destruct (holder g) as [h|]; auto. destruct Hh as [Ht _]. congruence.
+Qed.
+Print Assumptions C12_released.
+
+(* ---------- pull ---------- *)
+
+(* pull (relocks = true) is covered by the theorems above, which hold for any descriptor;
+   spelled out for a process running a relocking subcommand, among any other processes. *)
+Theorem C12_pull :
+  forall cfg g i p, steps ReleaseSamePath (init cfg) g ->
+    nth_error (procs g) i = Some p -> relocks (p_desc p) = true ->
+    (p_locked p = true ->
+       lockfile g = true /\ holder g = Some i /\ forall j, holds g j -> j = i) /\
+    (p_pc p = Acquired -> p_locked p = true) /\
+    (p_pc p = Body -> locks (p_desc p) = true -> p_locked p = true) /\
+    (p_pc p = Relock -> p_locked p = false -> holder g <> Some i) /\
+    (is_exited p = true -> p_locked p = false /\ holder g <> Some i) /\
+    (p_refused p = true ->
+       p_locked p = false /\ (p_pc p = Failing \/ p_pc p = Exited 1) /\
+       forall l g', step_proc ReleaseSamePath l g i = Some g' ->
+         lockfile g' = lockfile g /\ holder g' = holder g) /\
+    ((forall j q, nth_error (procs g) j = Some q -> is_exited q = true) ->
+       lockfile g = false).
+Proof.
+  intros cfg g i p Hst Hn Hrel.
+  assert (Hr : reachable ReleaseSamePath g) by (exists cfg; exact Hst).
+  destruct (C12_mutex g Hr) as (_ & Huniq & Hhold & Hpcs & _).
+  destruct (C12_released cfg g Hst) as (Hexd & Hallex).
+  destruct (C12_refused_clean g i p Hr Hn) as (_ & Hafter).
+  destruct (Hpcs i p Hn) as (Hacq & Hbody).
+  split.
+  { intros Hlk. assert (Hi : holds g i) by (exists p; auto).
+    split.
+    - destruct (C12_mutex g Hr) as (Hiff & _). apply Hiff. exists i. split; auto.
+    - split.
+      + apply Hhold. exact Hi.
+      + intros j Hj. apply Huniq; auto. }
+  split; [exact Hacq|]. split; [exact Hbody|].
+  split.
+  { intros _ Hlk Heq. apply Hhold in Heq. destruct Heq as (q & Hq & Hql). congruence. }
+  split.
+  { intros He. destruct (Hexd i p Hn He) as (Hlk & _ & Hne & _). auto. }
+  split.
+  { intros Hrf. destruct (Hafter Hrf) as (Hlk & _ & _ & Hpc & _ & _ & Hstep).
+    split; [exact Hlk|]. split; [exact Hpc|].
+    intros l g' Hs. destruct (Hstep l g' Hs) as (_ & Hlf & Hho & _). auto. }
+  intros Hall. apply Hallex. exact Hall.
+Qed.
+Print Assumptions C12_pull.
+
+(* ---------- pre-repair behaviour refuted ---------- *)
+
+(* config get from a sub-directory: root found, lock created at <root>/.dud/lock, config
+   read and printed, Main's unlockProject removes ./.dud/lock relative to the sub-directory:
+   ENOENT -> fatal -> exit 1, and the lock stays. *)
+Definition prerepair_schedule : list (label * nat) :=
+  [(LResolve, 0); (LAcquireOk, 0); (LBodyOk, 0); (LBodyOk, 0); (LUnlock, 0); (LExit, 0)].
+
+Definition prerepair_final : global :=
+  mkGlobal true (Some 0) [mkProc (Exited 1) false false false false false config_desc].
+
+Theorem C12_prerepair_refuted :
+  exists g p,
+    reachable ReleaseCwdRelative g /\
+    procs g = [p] /\
+    p_desc p = mkDesc true false false true /\ p_cwd_root p = false /\
+    p_pc p = Exited 1 /\ p_locked p = false /\
+    (forall i q, nth_error (procs g) i = Some q -> is_exited q = true) /\
+    lockfile g = true.
+Proof.
+  exists prerepair_final, (mkProc (Exited 1) false false false false false config_desc).
+  split.
+  - exists [(config_desc, false)].
+    apply run_steps with (sch := prerepair_schedule). vm_compute. reflexivity.
+  - repeat split; try reflexivity.
+    intros [|[|i]] q Hq; simpl in Hq; try discriminate.
+    inversion Hq; subst q. reflexivity.
+Qed.
+Print Assumptions C12_prerepair_refuted.
+
+(* the very same schedule on the repaired tree ends with the project unlocked, exit 0 *)
+Example repaired_same_schedule :
+  run ReleaseSamePath (init [(config_desc, false)]) prerepair_schedule
+  = Some (mkGlobal false None [mkProc (Exited 0) false true false false false config_desc]).
+Proof. vm_compute. reflexivity. Qed.
+
+(* pre-repair, the orphaned lock then refuses every later command, here a commit from the
+   root, although no dud is running *)
+Example prerepair_orphan_refuses_next :
+  exists g, run ReleaseCwdRelative (init [(config_desc, false); (prepare_desc, true)])
+              (prerepair_schedule ++ [(LResolve, 1); (LAcquireRefused, 1); (LExit, 1)]) = Some g
+            /\ lockfile g = true
+            /\ map exit_code (procs g) = [Some 1; Some 1].
+Proof. eexists. split; [vm_compute; reflexivity|]. split; reflexivity. Qed.
+
+(* ---------- non-vacuity ---------- *)
+
+(* two commits started together from a sub-directory and from the root: 0 acquires, 1 is
+   refused and exits 1 while 0 is still working, 0 finishes; nothing is left locked *)
+Definition two_procs_schedule : list (label * nat) :=
+  [(LResolve, 0); (LResolve, 1); (LAcquireOk, 0); (LAcquireRefused, 1); (LExit, 1);
+   (LBodyOk, 0); (LBodyOk, 0); (LUnlock, 0); (LExit, 0)].
+
+Example two_procs_one_refused :
+  exists g, run ReleaseSamePath (init [(prepare_desc, false); (prepare_desc, true)])
+              two_procs_schedule = Some g
+            /\ lockfile g = false /\ holder g = None
+            /\ map exit_code (procs g) = [Some 0; Some 1]
+            /\ map p_refused (procs g) = [false; true]
+            /\ map p_locked (procs g) = [false; false].
+Proof. eexists. split; [vm_compute; reflexivity|]. repeat split; reflexivity. Qed.
+
+(* the state in the middle: 0 in its body holding the lock, 1 already gone *)
+Example two_procs_middle :
+  exists g, run ReleaseSamePath (init [(prepare_desc, false); (prepare_desc, true)])
+              (firstn 6 two_procs_schedule) = Some g
+            /\ lockfile g = true /\ holder g = Some 0
+            /\ map p_pc (procs g) = [Body; Exited 1]
+            /\ map p_locked (procs g) = [true; false].
+Proof. eexists. split; [vm_compute; reflexivity|]. repeat split; reflexivity. Qed.
+
+(* body failure from a sub-directory (config set, no chdir): fatal unlocks, exit 1 *)
+Example body_failure_from_subdir :
+  exists g, run ReleaseSamePath (init [(config_desc, false)])
+              [(LResolve, 0); (LAcquireOk, 0); (LBodyOk, 0); (LBodyFail, 0); (LUnlock, 0);
+               (LExit, 0)] = Some g
+            /\ lockfile g = false /\ map exit_code (procs g) = [Some 1].
+Proof. eexists. split; [vm_compute; reflexivity|]. split; reflexivity. Qed.
+
+(* pull: 0 = pull, 1 = commit.  1 takes the lock in the window between fetch and checkout;
+   the relock of 0 is refused, 0 exits 1 and the lock of 1 is still there; 1 finishes. *)
+Definition pull_window_schedule : list (label * nat) :=
+  [(LResolve, 0); (LAcquireOk, 0); (LBodyOk, 0); (LBodyOk, 0); (LUnlock, 0);
+   (LResolve, 1); (LAcquireOk, 1);
+   (LRelock, 0); (LAcquireRefused, 0); (LExit, 0)].
+
+Example pull_window :
+  exists g, run ReleaseSamePath (init [(pull_desc, false); (prepare_desc, false)])
+              pull_window_schedule = Some g
+            /\ lockfile g = true /\ holder g = Some 1
+            /\ map p_pc (procs g) = [Exited 1; Acquired]
+            /\ map p_locked (procs g) = [false; true]
+            /\ exists g', run ReleaseSamePath g
+                 [(LBodyOk, 1); (LBodyOk, 1); (LUnlock, 1); (LExit, 1)] = Some g'
+               /\ lockfile g' = false /\ map exit_code (procs g') = [Some 1; Some 0].
+Proof.
+  eexists. split; [vm_compute; reflexivity|]. repeat split; try reflexivity.
+  eexists. split; [vm_compute; reflexivity|]. split; reflexivity.
+Qed.
+
+(* pull alone: both halves run, exit 0, unlocked *)
+Example pull_alone :
+  exists g, run ReleaseSamePath (init [(pull_desc, false)])
+              [(LResolve, 0); (LAcquireOk, 0); (LBodyOk, 0); (LBodyOk, 0); (LUnlock, 0);
+               (LRelock, 0); (LAcquireOk, 0); (LBodyOk, 0); (LBodyOk, 0); (LUnlock, 0);
+               (LExit, 0)] = Some g
+            /\ lockfile g = false /\ map exit_code (procs g) = [Some 0].
+Proof. eexists. split; [vm_compute; reflexivity|]. split; reflexivity. Qed.
+
+(* a second acquire while the lock is held is not a step of the model *)
+Example no_double_acquire :
+  run ReleaseSamePath (init [(prepare_desc, true); (prepare_desc, true)])
+    [(LResolve, 0); (LResolve, 1); (LAcquireOk, 0); (LAcquireOk, 1)] = None.
+Proof. vm_compute. reflexivity. Qed.
+
+(* ---------- subcommands that never lock ---------- *)
+
+(* init, checksum, stage gen, config path, config set --user: their steps do not touch the
+   lock, whoever holds it *)
+Theorem C12_nonlocking_inert :
+  forall g i p l g', reachable ReleaseSamePath g -> nth_error (procs g) i = Some p ->
+    locks (p_desc p) = false -> relocks (p_desc p) = false ->
+    step_proc ReleaseSamePath l g i = Some g' ->
+    p_locked p = false /\ lockfile g' = lockfile g /\ holder g' = holder g /\
+    (forall j, j <> i -> nth_error (procs g') j = nth_error (procs g) j).
+Proof.
+  intros g i p l g' Hr Hn Hnl Hnr Hs. pose proof (inv_reachable _ Hr) as Hinv.
+  assert (Hall : Forall proc_ok (procs g)) by apply Hinv.
+  pose proof (Forall_nth_error _ _ _ _ _ Hall Hn) as Hok.
+  destruct (step_proc_inv _ _ _ _ _ Hs) as (p0 & p' & e & Hn0 & Hl & Hlf & Hho & Hpr).
+  rewrite Hn in Hn0. inversion Hn0; subst p0. clear Hn0.
+  destruct (local_step_ok _ _ _ _ _ Hok Hl) as (Hok' & Hd & Hfe).
+  destruct Hok as (_ & _ & Hin & _). destruct (Hin Hnl Hnr) as (Hlk & Hpc).
+  destruct Hok' as (_ & _ & Hin' & _). rewrite Hd in Hin'. destruct (Hin' Hnl Hnr) as (Hlk' & _).
+  assert (He : e = Keep).
+  { destruct e; auto; unfold flag_effect in Hfe.
+    - destruct Hfe as (_ & _ & Ht). congruence.
+    - destruct Hfe as (Ht & _). congruence. }
+  subst e. simpl in *.
+  split; [exact Hlk|]. split; [exact Hlf|]. split; [exact Hho|].
+  intros j Hj. eapply step_others; eauto.
+Qed.
+Print Assumptions C12_nonlocking_inert.
+
+(* ---------- every command does exit: no process is ever stuck, no process loops ---------- *)
+
+(* whatever the state and the kind of release, a process that has not exited can move *)
+Lemma local_step_enabled k lf p :
+  is_exited p = false -> exists l p' e, local_step k l lf p = Some (p', e).
+Proof.
+  destruct p as [c lk po cw rf rl [dl dc dr df]]. unfold is_exited. simpl. intros He.
+  destruct c; try discriminate.
+  - exists LResolve. unfold local_step; simpl. destruct dl; eauto.
+  - destruct lf.
+    + exists LAcquireRefused. unfold local_step; simpl. eauto.
+    + exists LAcquireOk. unfold local_step; simpl. eauto.
+  - exists LBodyOk. unfold local_step; simpl. eauto.
+  - exists LBodyOk. unfold local_step; simpl. destruct (dr && negb rl); eauto.
+  - destruct lk.
+    + exists LUnlock. unfold local_step; simpl. destruct po; eauto.
+    + exists LRelock. unfold local_step; simpl. eauto.
+  - destruct lk.
+    + exists LUnlock. unfold local_step; simpl. destruct po; eauto.
+    + exists LExit. unfold local_step; simpl. eauto.
+  - destruct (lk && negb rf) eqn:Hb.
+    + exists LUnlock. unfold local_step; simpl. rewrite Hb. destruct po; eauto.
+    + exists LExit. unfold local_step; simpl.
+      destruct lk, rf; simpl in *; try discriminate; eauto.
+Qed.
+
+Theorem C12_never_stuck :
+  forall k g i p, nth_error (procs g) i = Some p -> is_exited p = false ->
+    exists l g', step_proc k l g i = Some g'.
+Proof.
+  intros k g i p Hn He.
+  destruct (local_step_enabled k (lockfile g) p He) as (l & p' & e & Hl).
+  exists l. unfold step_proc. rewrite Hn, Hl.
+  destruct (apply_effect e i (lockfile g) (holder g)) as [lf h]. eauto.
+Qed.
+Print Assumptions C12_never_stuck.
+
+(* a bound on the number of steps a process has left *)
+Definition measure (p : proc) : nat :=
+  match p_pc p with
+  | Exited _ => 0
+  | Relock => 13 + b2n (p_locked p)
+  | c =>
+    (if relocks (p_desc p) && negb (p_relocked p) then 10 else 0) +
+    match c with
+    | Start => 9
+    | Resolved => 8
+    | Acquired => 7
+    | Body => 6
+    | Relock => 0
+    | Done => 4 + b2n (p_locked p)
+    | Failing => 2 + b2n (p_locked p)
+    | Exited _ => 0
+    end
+  end.
+
+Lemma local_step_decreases k l lf p p' e :
+  local_step k l lf p = Some (p', e) -> measure p' < measure p.
+Proof.
+  destruct p as [c lk po cw rf rl [dl dc dr df]]. unfold local_step, measure. simpl.
+  intros Hs.
+  destruct l, c; simpl in Hs; try discriminate.
+  all: repeat match type of Hs with
+       | context [if ?b then _ else _] => destruct b eqn:?; simpl in Hs
+       end; try discriminate.
+  all: inversion Hs; subst; clear Hs; simpl.
+  all: repeat match goal with
+       | |- context [if ?b then _ else _] => destruct b eqn:?; simpl
+       end; try lia.
+  all: try (destruct lk; simpl in *; try discriminate; lia).
+Qed.
+
+Fixpoint total_measure (l : list proc) : nat :=
+  match l with
+  | [] => 0
+  | p :: r => measure p + total_measure r
+  end.
+
+Lemma total_measure_upd l i p p' :
+  nth_error l i = Some p ->
+  total_measure (upd l i p') + measure p = total_measure l + measure p'.
+Proof.
+  revert i. induction l as [|a r IH]; intros [|i] Hn; simpl in *; try discriminate.
+  - inversion Hn; subst. lia.
+  - specialize (IH i Hn). lia.
+Qed.
+
+Lemma step_decreases k l g i g' :
+  step_proc k l g i = Some g' -> total_measure (procs g') < total_measure (procs g).
+Proof.
+  intros Hs. destruct (step_proc_inv _ _ _ _ _ Hs) as (p & p' & e & Hn & Hl & _ & _ & Hpr).
+  pose proof (local_step_decreases _ _ _ _ _ _ Hl) as Hd.
+  pose proof (total_measure_upd _ _ _ p' Hn) as Hu. rewrite Hpr. lia.
+Qed.
+
+Lemma total_measure_init cfg : total_measure (procs (init cfg)) <= 19 * length cfg.
+Proof.
+  unfold init. simpl. induction cfg as [|c r IH]; simpl; auto.
+  assert (Hm : measure (start_proc c) <= 19).
+  { unfold measure, start_proc. simpl. destruct (relocks (fst c) && true); simpl; lia. }
+  lia.
+Qed.
+
+(* every schedule is finite: at most 19 steps per process, whatever the kind of release *)
+Theorem C12_bounded :
+  forall k cfg sch g, run k (init cfg) sch = Some g -> length sch <= 19 * length cfg.
+Proof.
+  intros k cfg sch g Hrun.
+  assert (Hgen : forall sch g0 g1, run k g0 sch = Some g1 ->
+            length sch + total_measure (procs g1) <= total_measure (procs g0)).
+  { clear. induction sch as [|[l i] r IH]; intros g0 g1 Hr; simpl in Hr.
+    - inversion Hr; subst. simpl. lia.
+    - destruct (step_proc k l g0 i) as [g2|] eqn:Hs; try discriminate.
+      pose proof (step_decreases _ _ _ _ _ Hs) as Hd. specialize (IH g2 g1 Hr). simpl. lia. }
+  specialize (Hgen sch (init cfg) g Hrun). pose proof (total_measure_init cfg) as Hi. lia.
+Qed.
+Print Assumptions C12_bounded.
+
+(* a reachable state in which nothing can move any more: everybody has exited and the
+   project is unlocked.  With C12_never_stuck and C12_bounded: every maximal run of the
+   repaired tree ends here. *)
+Theorem C12_quiescent_unlocked :
+  forall cfg g, steps ReleaseSamePath (init cfg) g ->
+    (forall l i, step_proc ReleaseSamePath l g i = None) ->
+    (forall i p, nth_error (procs g) i = Some p -> is_exited p = true) /\
+    lockfile g = false /\ holder g = None.
+Proof.
+  intros cfg g Hst Hq.
+  assert (Hall : forall i p, nth_error (procs g) i = Some p -> is_exited p = true).
+  { intros i p Hn. destruct (is_exited p) eqn:He; auto.
+    destruct (C12_never_stuck ReleaseSamePath g i p Hn He) as (l & g' & Hs).
+    rewrite Hq in Hs. discriminate. }
+  split; [exact Hall|]. apply (C12_released cfg g Hst). exact Hall.
+Qed.
+Print Assumptions C12_quiescent_unlocked.
